@@ -124,6 +124,9 @@ def h_tx(hx, rate, conf, L, k):
 OPTS = dict(merge_calls=["HammingCommon.check_and_correct"], lazy_calls=["BPTC19696.deinterleave_data_bits"], solver_timeout_ms=120000, max_paths=400)
 
 
+LONG = {"quick": [], "thorough": [("12", True, 1200, 16), ("12", False, 1430, 12)]}
+
+
 def lengths(rate, conf, tier):
     per, last = TABLE[(rate, conf)]
     if rate == "34":
@@ -149,4 +152,10 @@ def cases(tier, seed):
                     o["sweep"] = rate == "34"
                     out.append(Case("tx-r%s-%s-L%d-k%d" % (rate, "c" if conf else "u", L, k), "h_tx", dict(rate=rate, conf=conf, L=L, k=k), covers=["tx"],
                                     budget_s=900 if rate == "34" else 400, opts=o, bounds="%d symbolic payload octets, symbolic 24-bit addresses" % L))
+    # long transmissions: the preamble / header block counters beyond 7 bits (more than 127 bursts announced by the first preamble)
+    for rate, conf, L, k in LONG[tier]:
+        o = dict(OPTS)
+        o["sweep"] = False
+        out.append(Case("tx-long-r%s-%s-L%d-k%d" % (rate, "c" if conf else "u", L, k), "h_tx", dict(rate=rate, conf=conf, L=L, k=k), covers=["tx"],
+                        budget_s=3000, opts=o, bounds="%d symbolic payload octets, symbolic 24-bit addresses" % L))
     return out
